@@ -63,6 +63,9 @@ def oracle(case):
         return ('minify-raises-only-with-options', type(e).__name__, api.innermost_frame(e)), str(e)[:200]
     b = observe.observe(out)
     if b is None:
+        # the original finished within the bound; give the output five times that before calling it non-termination
+        b = observe.observe(out, timeout=10.0)
+    if b is None:
         return ('minified-program-does-not-terminate',), {'out': out[:600]}
     if a != b:
         which = 'stdout' if a[0] != b[0] else ('ending' if a[1] != b[1] else 'namespace')
